@@ -499,7 +499,57 @@ class ObjectRemoveChildren(Contract):
                    note="a property group of this object keeps listing a data that is no longer its child")
 
 
-CONTRACTS = CONTRACTS + [ObjectRemoveChildren]
+class ObjectRemoveDisplaySettings(Contract):
+    """ObjectBase.remove_children on the object's display settings (a data child the object also keeps
+    a handle to), with `remove_data_from_groups` and the `visual_parameters` / `children` getters
+    *executed* (not summarised): when the call returns the child is out of the child list and the
+    object's handle is released -- an object that goes on holding the removed entity keeps its
+    identifier alive in the workspace's registry."""
+    target = "geoh5py/objects/object_base.py::ObjectBase.remove_children"
+    variant = "display-settings"
+    props = ("C05", "C06")
+    lenient = True
+
+    def cases(self):
+        return ["object-with-a-property-group", "object-without-property-groups"]
+
+    def setup(self, ctx):
+        from geoh5py.data import FloatData, VisualParameters
+        from geoh5py.objects import Points
+
+        me = Opaque("self", cls=Points)
+        child = Opaque("display-settings", cls=VisualParameters)
+        sibling = Opaque("sibling", cls=FloatData)
+        for o in (me, child, sibling):
+            o.distinct = True
+        child.attrs["parent"] = me
+        kept = PList([sibling, child])
+        me.attrs["_children"] = kept
+        me.attrs["_visual_parameters"] = child
+        pg = Opaque("pg")
+        rp = Opaque("remove_properties")
+        rp.maybe_method = lambda I, a, kw: I.event("scrub", data=a[0])
+        pg.attrs["remove_properties"] = rp
+        me.attrs["_property_groups"] = PList([pg]) if ctx.case == "object-with-a-property-group" else None
+        ws = Opaque("workspace")
+        wrc = Opaque("workspace.remove_children")
+        wrc.maybe_method = lambda I, a, kw: I.event("unlink", parent=a[0], children=a[1])
+        ws.attrs["remove_children"] = wrc
+        me.attrs["workspace"] = ws
+        ctx.env.update(me=me, child=child, sibling=sibling, kept=kept)
+        return [me, PList([child])], {}
+
+    def post(self, ctx, result):
+        e = ctx.env
+        ctx.oblige("the-display-settings-leave-the-child-list", e["child"] not in e["kept"].items and e["sibling"] in e["kept"].items)
+        ctx.oblige("the-object-releases-its-handle-to-the-removed-display-settings", e["me"].attrs.get("_visual_parameters") is None,
+                   note="the object still holds the removed entity: its identifier stays registered and cannot be given to a new entity or kept by a copy")
+
+    def post_raises(self, ctx, sig):
+        ctx.oblige("removing-the-display-settings-does-not-raise", False, kind="post-exc", note=f"{sig.exc_class.__name__} at {sig.origin}")
+
+
+CONTRACTS = CONTRACTS + [ObjectRemoveChildren, ObjectRemoveDisplaySettings]
 
 
 class ContainerRemoveChildren(Contract):
